@@ -297,6 +297,17 @@ def _variants():
     o["U.grid_sample:padtensor"] = lambda c: U.grid_sample(c.img(), c.coords(), padding=c.pick([c.scalar(1.5), 0.5]))
     o["U.warp_image:padtensor"] = lambda c: U.warp_image(c.img(), c.coords(), flow=c.maybe(c.disp_last), padding=c.pick([c.scalar(1.0), 1.0]))
     o["U.avg_pool:divisor"] = lambda c: U.avg_pool(c.img(), 2, divisor_override=c.pick([None, 3, c.scalar(3.0)]))
+    # per-axis options given as tracked tensors (one entry per spatial axis)
+    SIG = [0.8, 0.6, 0.7]
+    o["U.downsample:sigvec"] = lambda c: U.downsample(c.img(), levels=c.pick([1, 1, 2]), sigma=c.axisvec(SIG, name="sigma"), dims=c.pick([None, (0,), ("x",), (1,), (0, 1)]))
+    o["U.upsample:sigvec"] = lambda c: U.upsample(c.img(), levels=c.pick([1, 1, 2]), sigma=c.axisvec(SIG, name="sigma"), dims=c.pick([None, (0,), (1,)]))
+    o["U.gaussian_pyramid:sigvec"] = lambda c: U.gaussian_pyramid(c.img(), levels=c.pick([1, 2]), sigma=c.axisvec(SIG, name="sigma"), dims=c.pick([None, (0,), (1,)]))
+    o["U.flow_sizes:tensor"] = lambda c: c.pick([U.normalize_flow, U.denormalize_flow])(c.flow(), size=c.axisvec(list(reversed(c.shape)), dtype=c.pick([torch.int64, torch.float32]), name="size"), align_corners=c.pick([True, False]))
+    o["U.grid_sizes:tensor"] = lambda c: c.pick([U.normalize_grid, U.denormalize_grid])(c.coords(), size=c.axisvec(list(reversed(c.shape)), dtype=c.pick([torch.int64, torch.float32]), name="size"), align_corners=c.pick([True, False]))
+    o["U.pad:marginvec"] = lambda c: U.pad(c.img(), margin=c.axisvec([1, 0, 2], dtype=torch.int64, name="margin"), mode=c.pick(["constant", "replicate"]))
+    o["U.crop:marginvec"] = lambda c: U.crop(c.img(), margin=c.axisvec([1, 0, 1], dtype=torch.int64, name="margin"))
+    o["U.pad:numvec"] = lambda c: U.pad(c.img(), num=c.axisvec([1, 0, 2, 1, 0, 1], dtype=torch.int64, name="num", n=2 * c.D))
+    o["U.derivatives:sigvec"] = lambda c: c.pick([U.divergence, U.jacobian_det, U.curl])(c.flow(), sigma=c.pick([0.8, 0.0]), spacing=c.axisvec([1.0, 2.0, 0.5], name="spacing"), mode=c.pick([None, "central", "bspline"]))
     o["U.derivatives:spacing"] = lambda c: c.pick([U.divergence, U.jacobian_det, U.curl, U.jacobian_matrix])(c.flow(), spacing=c.spacing_arg(), mode=c.pick([None, "central", "forward"]))
     o["U.spatial_derivatives:spacing"] = lambda c: U.spatial_derivatives(c.img(), which=c.pick(["x", ["x", "y"]]), spacing=c.spacing_arg(), mode=c.pick([None, "central", "bspline"]))
     o["U.flow_derivatives:spacing"] = lambda c: U.flow_derivatives(c.flow(), which="du/dx", spacing=c.spacing_arg())
